@@ -374,6 +374,10 @@ func c15Embed(t *rapid.T, benign, label string) string {
 	}
 	h := rapid.SampledFrom(c15Hostile).Draw(t, label+"_hs")
 	pos := rapid.IntRange(0, len(benign)).Draw(t, label+"_pos")
+	if at := strings.IndexByte(benign, '@'); at > 0 && pos <= at && rapid.IntRange(0, 2).Draw(t, label+"_quoted") == 0 {
+		// inside a quoted local part
+		return "\"" + benign[:pos] + h + benign[pos:at] + "\"" + benign[at:]
+	}
 	return benign[:pos] + h + benign[pos:]
 }
 
@@ -488,6 +492,17 @@ func TestC15(t *testing.T) {
 			{Op: "rcpt", Addr: "r@x", Opts: true, OType: emb("RFC822"), ORcpt: "orig@example.org"},
 			{Op: "rcpt", Addr: "r@x", Opts: true, Notify: []string{emb("SUCCESS")}},
 		}
+		// the same inside a quoted local part, where an address scanner is in
+		// another state (quoted-pairs, a closing quote that follows)
+		embQ := func(local, dom string) string { return "\"" + local[:2] + wd + local[2:] + "\"@" + dom }
+		authQ := embQ("auth", "example.org")
+		cases = append(cases,
+			c15Call{Op: "mail", Addr: embQ("sender", "example.org")},
+			c15Call{Op: "rcpt", Addr: embQ("rcpt", "example.org")},
+			c15Call{Op: "verify", Addr: embQ("someone", "example.org")},
+			c15Call{Op: "mail", Addr: "s@x", Opts: true, Auth: &authQ},
+			c15Call{Op: "rcpt", Addr: "r@x", Opts: true, OType: "RFC822", ORcpt: embQ("orig", "example.org")},
+		)
 		for _, call := range cases {
 			idx++
 			if !mine(idx) || !complete {
